@@ -759,6 +759,9 @@ fn injections(base: &Node) -> Vec<Injection> {
                 let wrong: Vec<(&str, Node)> = match node {
                     Node::Str(_) if last == "kind" => vec![("unknown kind", s("nope")), ("kind of wrong type", Node::Int(3))],
                     Node::Str(_) if last == "level" => vec![("unknown level", s("loud")), ("level of wrong type", Node::List(vec![]))],
+                    Node::Str(_) if last == "limit" => vec![("overflowing size literal", s("16777216 tb")), ("negative size literal", s("-1 kb")), ("unknown size unit", s("10 parsecs")), ("list instead of string", Node::List(vec![Node::Int(1)]))],
+                    Node::Str(_) if last == "interval" => vec![("overflowing interval literal", s("9223372036854775808 seconds")), ("negative interval literal", s("-1 hour")), ("unknown interval unit", s("3 fortnights"))],
+                    Node::Str(_) if last == "refresh_rate" => vec![("unknown duration unit", s("30 parsecs")), ("overflowing duration", s("99999999999999999999999 s")), ("list instead of string", Node::List(vec![Node::Int(1)]))],
                     Node::Str(_) => vec![("list instead of string", Node::List(vec![Node::Int(1)])), ("map instead of string", Node::Map(vec![("x".into(), Node::Int(1))]))],
                     Node::Bool(_) => vec![("string instead of bool", s("maybe")), ("number instead of bool", Node::Int(7))],
                     // min_size is a 64-bit quantity: 2^32 is a legal value there
@@ -935,7 +938,7 @@ pub fn run(ctx: &Ctx) -> Report {
                 && lc.refresh.is_some()
                 && match &lc.apps[1].kind {
                     Kind::File { append: Some(true), enc: Enc::Pattern(true, true) } => !lc.apps[1].thresholds.is_empty(),
-                    Kind::Rolling { append: Some(true), enc: Enc::Pattern(false, true), policy_kind: true, trg, rol: Rol::Fixed(Some(1)) } => matches!(trg, Trg::Size | Trg::OnStartup(Some(0))) && lc.apps[1].thresholds.is_empty(),
+                    Kind::Rolling { append: Some(true), enc: Enc::Pattern(false, true), policy_kind: true, trg, rol: Rol::Fixed(Some(1)) } => matches!(trg, Trg::Size | Trg::Time | Trg::OnStartup(Some(0))) && lc.apps[1].thresholds.is_empty(),
                     _ => false,
                 }
         })
